@@ -290,13 +290,25 @@ Proof.
     destruct (negb (cnt =? 0)), ps, sc, ts; rewrite <- ?app_assoc; cbn [app]; rewrite ?app_nil_r; reflexivity.
 Qed.
 
+Lemma reads_bytes_nonnull b e : write_bytes b = Some e -> reads p_bytes_nonnull e b.
+Proof.
+  intros H. unfold p_bytes_nonnull. eapply reads_then_nil; [apply reads_bytes_some, H|]. apply reads_ret.
+Qed.
 Lemma reads_paging pg psb :
   match pg with Some ps => write_bytes ps = Some psb | None => psb = [] end ->
-  reads (p_opt (is_some pg) p_bytes) psb (option_map Some pg).
+  reads (p_opt (is_some pg) p_bytes_nonnull) psb pg.
 Proof.
-  destruct pg as [ps|]; cbn [is_some p_opt option_map]; intros H.
-  - apply reads_map. apply reads_bytes_some, H.
+  destruct pg as [ps|]; cbn [is_some p_opt]; intros H.
+  - apply reads_map. apply reads_bytes_nonnull, H.
   - subst psb. apply reads_ret.
+Qed.
+Lemma reads_values_nonempty l blob : l <> [] ->
+  ser_cells l = Some blob -> N.of_nat (List.length l) < 65536 ->
+  reads p_values_nonempty (be 2 (N.of_nat (List.length l)) ++ blob) l.
+Proof.
+  intros Hne H Hl. unfold p_values_nonempty.
+  eapply reads_then_nil; [apply reads_values; assumption|].
+  destruct l; [congruence|apply reads_ret].
 Qed.
 
 Lemma reads_qparams p cnt blob out :
@@ -319,12 +331,13 @@ Proof.
   { instantiate (1 := vals). destruct (cnt =? 0) eqn:E0; cbn [negb].
     - apply N.eqb_eq in E0. rewrite E0 in Hcnt. destruct vals; [|cbn [List.length] in Hcnt; lia].
       apply reads_ret.
-    - subst cnt. apply reads_values; assumption. }
+    - subst cnt. apply reads_values_nonempty; try assumption.
+      intros ->. apply N.eqb_neq in E0. apply E0. reflexivity. }
   eapply reads_then; [apply (reads_opt p_int (sbe 4)); intros x ->; apply reads_int, Hps|].
   eapply reads_then; [apply reads_paging, Hpg|].
   eapply reads_then; [apply (reads_opt p_serial (fun s => be 2 (serial_code s))); intros x _; apply reads_serial|].
   eapply reads_map'; [apply (reads_opt p_long (sbe 8)); intros x ->; apply reads_long, Hts|].
-  destruct pg; reflexivity.
+  reflexivity.
 Qed.
 
 (* ---------- string lists / maps / events ---------- *)
@@ -1069,9 +1082,9 @@ Proof.
 Qed.
 
 (* ---------- the driver's boolean predicate means the property ---------- *)
-Theorem frame_says_sound cd c tr r f : frame_says cd c tr r f = true ->
+Theorem frame_says_sound cd c tr st r f : frame_says cd c tr st r f = true ->
   exists h, parse_frame cd c (uses_mid r) f = Ok (h, r) /\ h_version h = 4 /\ h_opcode h = opcode r /\
-            h_length h + 9 = blen f /\ h_flags h = frame_flags (is_some c) tr /\ h_stream h = 0%Z.
+            h_length h + 9 = blen f /\ h_flags h = frame_flags (is_some c) tr /\ h_stream h = st.
 Proof.
   unfold frame_says. destruct (parse_frame cd c (uses_mid r) f) as [[h r']|]; [|discriminate].
   intros H. repeat (apply andb_true_iff in H as [H ?]).
@@ -1079,17 +1092,34 @@ Proof.
   exists h. repeat split; try reflexivity;
     first [apply N.eqb_eq; assumption | apply Z.eqb_eq; assumption].
 Qed.
-Theorem frame_says_complete cd tr r f :
-  req_wf r -> encode_request cd None tr r = Ok f -> frame_says cd None tr r f = true.
+Lemma blen_set_stream st f : 4 <= blen f -> blen (set_stream st f) = blen f.
 Proof.
-  intros W E. unfold frame_says.
-  rewrite (parse_encode cd None tr r f (uses_mid r) W (mid_matches_self r) E).
-  cbn [h_version h_opcode h_length h_flags h_stream is_some].
-  destruct (req_eq_dec r r) as [_|N]; [|congruence].
-  unfold encode_request in E. destruct (serialize_request r) as [body|]; [|discriminate].
-  apply make_frame_ok in E as [_ ->].
-  rewrite blen_frame_bytes. replace (9 + blen body - 9 + 9) with (9 + blen body) by lia.
-  rewrite !N.eqb_refl. destruct tr; reflexivity.
+  intros H. unfold set_stream, blen in *. rewrite !app_length, firstn_length, skipn_length.
+  unfold sbe. rewrite be_eq, be_enc_length. lia.
+Qed.
+(* the frame as made (stream 0) and the frame after set_stream st both satisfy the predicate *)
+Theorem frame_says_complete cd tr r f :
+  req_wf r -> encode_request cd None tr r = Ok f ->
+  frame_says cd None tr 0 r f = true /\
+  forall st, (- 2 ^ 15 <= st < 2 ^ 15)%Z -> frame_says cd None tr st r (set_stream st f) = true.
+Proof.
+  intros W E.
+  pose proof (parse_encode cd None tr r f (uses_mid r) W (mid_matches_self r) E) as P.
+  assert (L : blen f - 9 + 9 = blen f /\ 4 <= blen f).
+  { unfold encode_request in E. destruct (serialize_request r) as [body|]; [|discriminate].
+    apply make_frame_ok in E as [_ ->]. rewrite blen_frame_bytes. lia. }
+  destruct L as [L L4].
+  assert (F : (if tr then 2 else 0) = frame_flags false tr) by (destruct tr; reflexivity).
+  split.
+  - unfold frame_says. rewrite P.
+    cbn [h_version h_opcode h_length h_flags h_stream is_some].
+    destruct (req_eq_dec r r) as [_|N]; [|congruence].
+    rewrite L, F, !N.eqb_refl. reflexivity.
+  - intros st Hst. unfold frame_says.
+    rewrite (set_stream_parse cd None (uses_mid r) f _ r st Hst P).
+    cbn [with_stream h_version h_opcode h_length h_flags h_stream is_some].
+    destruct (req_eq_dec r r) as [_|N]; [|congruence].
+    rewrite blen_set_stream by exact L4. rewrite L, F, !N.eqb_refl, Z.eqb_refl. reflexivity.
 Qed.
 
 (* ---------- bodies around 4 GiB: the uniform BATCH of the tie's `L` cases ---------- *)
@@ -1129,7 +1159,7 @@ Proof.
   set (body := [batch_type_code Logged] ++ _).
   assert (Hbody : blen body = batch_body_len (N.of_nat n) (blen text)).
   { unfold body, batch_body_len, write_short. rewrite !blen_app, Hb, !blen_be, !blen_cons, !blen_nil. lia. }
-  unfold uniform_batch_outcome. rewrite <- Hbody.
+  unfold uniform_batch_outcome, size_outcome. rewrite <- Hbody.
   destruct (blen body <? 4294967296) eqn:E.
   - apply N.ltb_lt in E. rewrite (make_frame_small _ _ body E). eexists. split; [reflexivity|]. split.
     + apply blen_frame_bytes.
@@ -1137,3 +1167,24 @@ Proof.
       rewrite E4. cbn [app skipn firstn]. rewrite <- E4, be_eq. apply be_dec_enc_small. exact E.
   - apply N.ltb_ge in E. split; [apply make_frame_big, E|exact E].
 Qed.
+
+(* what make does with any payload, sizes only (the tie's `M` cases) *)
+Theorem make_sizes fl op payload :
+  match size_outcome (blen payload) with
+  | Ok b => exists f, make_frame fl op payload = Ok f /\ blen f = 9 + b /\ be_dec (firstn 4 (skipn 5 f)) = b
+  | Err b => make_frame fl op payload = Err (ErrBodyTooLong b) /\ 4294967296 <= b
+  end.
+Proof.
+  unfold size_outcome. destruct (blen payload <? 4294967296) eqn:E.
+  - apply N.ltb_lt in E. rewrite (make_frame_small _ _ payload E). eexists. split; [reflexivity|]. split.
+    + apply blen_frame_bytes.
+    + unfold frame_bytes. destruct (be4_split (blen payload)) as (a & b & c & d & E4).
+      rewrite E4. cbn [app skipn firstn]. rewrite <- E4, be_eq. apply be_dec_enc_small. exact E.
+  - apply N.ltb_ge in E. split; [apply make_frame_big, E|exact E].
+Qed.
+Theorem lz4_sizes cd body :
+  match size_outcome (blen body) with
+  | Ok b => compress_append cd Lz4 body = Ok (be 4 b ++ lz4_compress cd body)
+  | Err b => compress_append cd Lz4 body = Err (ErrBodyTooLong b)
+  end.
+Proof. unfold size_outcome. cbn [compress_append]. destruct (blen body <? 4294967296); reflexivity. Qed.
